@@ -81,37 +81,27 @@ Theorem req_transducer : forall W, rq_w_ok W -> forall c0 ins, rq_canon c0 ->
 Proof. exact req_transducer_thm. Qed.
 
 (* ---- encoder ---- *)
-(* resp_min_size (Model/Cmd.v) is a probe of the regenerated encoder: the smallest size it handles *)
-Theorem resp_stream_probe : forall wvalid wv, 1 <= wvalid -> 7 <= wv -> forall c0 value k st r0 env,
-  rs_idle c0 -> resp_min_size <= k -> on st = true -> (Z.to_nat (2 * k + 4) <= ready_count env)%nat ->
-  let first := {| i_vin := value; i_size := k; i_start := st; i_ready := r0 |} in
-  exists pre post, env = pre ++ post /\
-    rs_xfers wvalid wv c0 (first :: pre) = response value (Z.to_nat k) /\
-    rs_idle (rs_iter wvalid wv c0 (first :: pre)).
-Proof. exact resp_stream_gen. Qed.
-Print Assumptions resp_stream_probe.
-
-(* C20-F1: repaired in /repo, switched by fixes/C20_switch.py *)
 (* a request (start_resp high in an idle cycle, value on vin, ANY k >= 0 on size), then ANY environment stream (ready
    pacing arbitrary; vin/size/start_resp arbitrary, they are ignored while busy) with at least 2k+4 ready cycles:
    the stream splits at the return to idle, and up to there exactly '=' , the k hex digits MSB first, '!' were
-   transferred, one per valid&ready edge.  (C20-F1 repaired: size 0 answers "=!".) *)
+   transferred, one per valid&ready edge.  k = 0 gives "=!" (repaired in /repo c870d83, former finding C20-F1). *)
 Theorem resp_stream : forall wvalid wv, 1 <= wvalid -> 7 <= wv -> forall c0 value k st r0 env,
   rs_idle c0 -> 0 <= k -> on st = true -> (Z.to_nat (2 * k + 4) <= ready_count env)%nat ->
   let first := {| i_vin := value; i_size := k; i_start := st; i_ready := r0 |} in
   exists pre post, env = pre ++ post /\
     rs_xfers wvalid wv c0 (first :: pre) = response value (Z.to_nat k) /\
     rs_idle (rs_iter wvalid wv c0 (first :: pre)).
-Proof. exact resp_stream_k. Qed.
+Proof. exact resp_stream_thm. Qed.
 
 (* at every moment (no liveness assumption), as long as no new request arrives, what was transferred is a prefix *)
 Theorem resp_prefix : forall wvalid wv, 1 <= wvalid -> 7 <= wv -> forall c0 value k st r0 env,
   rs_idle c0 -> 0 <= k -> on st = true -> Forall (fun i => i_start i = 0) env ->
   let first := {| i_vin := value; i_size := k; i_start := st; i_ready := r0 |} in
   exists rest, rs_xfers wvalid wv c0 (first :: env) ++ rest = response value (Z.to_nat k).
-Proof. exact resp_prefix_k. Qed.
+Proof. exact resp_prefix_thm. Qed.
 
-(* size = 0: exactly "=!" (computed on the regenerated definition) *)
+(* size = 0: exactly "=!" (a concrete run computed on the regenerated definition; before c870d83 the block raised
+   ValueError "negative shift count" here) *)
 Theorem resp_size0 : rs_xfers 1 8 rs_reset ({| i_vin := 5; i_size := 0; i_start := 1; i_ready := 1 |} :: map (fun _ => in0 1) (seq 0 8)) = response 5 0 /\
   response 5 0 = [61; 33].
 Proof. exact resp_size0_ok. Qed.
@@ -120,9 +110,11 @@ Print Assumptions resp_size0.
 (* idle stays idle and transfers nothing until start_resp *)
 Theorem resp_idle : forall wvalid wv c i, rs_idle c -> i_start i = 0 ->
   rs_step wvalid wv c i = c /\ xfer (rs_o c) (i_ready i) = [].
-Proof. exact resp_idle_gen. Qed.
+Proof. exact resp_idle_thm. Qed.
 
-(* ---- the guards are needed (witnesses by computation on the regenerated definitions) ---- *)
+(* ---- the guards are TIGHT: these two describe limits of the CURRENT behaviour that the theorems' hypotheses exclude
+   (a producer that ignores ready; lower-case digits), witnesses by computation on the regenerated definitions; they are
+   not findings against C20 (the property assumes the ready/valid port protocol and upper-case hex) ---- *)
 Theorem req_without_handshake_refuted :
   exists cs gap,
     events (map rq_o (rq_run W0 rq_reset (pulse_inputs gap cs ++ repeat (0, 0) 20))) <> parse 3 32 2 0 cs /\
